@@ -238,10 +238,18 @@ def rule_ccs(ctx):
     # the first receive admits CCS or NewSessionTicket only; if a ticket came, a CCS must follow
     first = ccs[0]
     flag = [t for t in g.nodes if t.kind == "test" and norm(t.expr) == "expect_ccs_message"]
-    typ = [t for t in g.nodes if t.kind == "test" and norm(t.expr) == "changeCipherSpec.type != 1"]
+    typ = [t for t in g.nodes if t.kind == "test" and isinstance(t.expr, ast.Compare) and len(t.expr.ops) == 1
+           and isinstance(t.expr.ops[0], ast.NotEq) and isinstance(t.expr.left, ast.Attribute)
+           and t.expr.left.attr == "type" and norm(t.expr.comparators[0]) == "1"]
     efft = [t for t in typ if "T" in dead_edge_labels(g, t, rs)]
-    ctx.check(R, len(efft) == len(typ) and len(typ) >= 2, fi.qname, "ChangeCipherSpec type gates effective",
-              "a ChangeCipherSpec whose type is not 1 must abort", fi.loc())
+    ctx.require(bool(typ), "C06.CCS: ChangeCipherSpec type check not found in _getFinished")
+    # every ChangeCipherSpec receive reaches the read-state switch only through an effective type gate
+    from .common import reach_flagged
+    for c in ccs:
+        seen = reach_flagged(g, g.normal_succ(c), blocked=efft + [x for x in ccs if x is not c])
+        ctx.check(R, not any(r.id in seen for r in rs), fi.qname,
+                  "ChangeCipherSpec type checked before the read state switch (#%d)" % c.line,
+                  "a ChangeCipherSpec whose type is not 1 must abort", fi.loc(c.ast) if c.ast is not None else fi.loc())
     # after a NewSessionTicket the path to the state switch passes the second CCS receive
     nst = [n for n in g.nodes if n.kind == "stmt" and norm(n.ast) == "session_ticket = result"]
     if nst and len(ccs) >= 2:
@@ -321,11 +329,23 @@ def rule_reneg(ctx):
     ctx.check(R, ok, fm.qname, "renegotiation attempt answered with no_renegotiation and discarded",
               "a HelloRequest / ClientHello received after the handshake must be answered with "
               "no_renegotiation and never be handed to the caller", fm.loc(t[0].ast) if t else fm.loc())
-    rn = [x for x in gm.nodes if x.kind == "test" and norm(x.expr) in (
-        "subType == HandshakeType.hello_request", "subType == HandshakeType.client_hello")]
-    ctx.check(R, len(rn) >= 2, fm.qname, "renegotiation triggers: hello_request (client) / client_hello (server)",
-              "renegotiation detection must recognise hello_request on clients and client_hello on servers",
-              fm.loc())
+    # which messages count as a renegotiation attempt, by role (meaning row; nothing is run)
+    from .common import spec_rows
+    spec_rows(ctx, R, TLSREC + "_getMsg", [
+        dict(what="renegotiation triggers: hello_request on clients, client_hello on servers, once a session exists",
+             dom={"ContentType.handshake": [22], "ContentType.change_cipher_spec": [20], "ContentType.alert": [21],
+                  "ContentType.application_data": [23], "ContentType.heartbeat": [24],
+                  "recordHeader.type": [22], "recordHeader.type not in expectedType": [True],
+                  "self.version": [(3, 3)], "self._middlebox_compat_mode": [False],
+                  "self._defragmenter.buffers[ContentType.handshake]": [b""],
+                  "HandshakeType.hello_request": [0], "HandshakeType.client_hello": [1],
+                  "self._client": [True, False], "subType": [0, 1, 2], "self.session": [True, None]},
+             abort=lambda e: not (e["self.session"] and e["subType"] == (0 if e["self._client"] else 1)),
+             effects={"no_renegotiation warning": (
+                 lambda st_: "AlertDescription.no_renegotiation" in norm(st_),
+                 lambda e: bool(e["self.session"]) and e["subType"] == (0 if e["self._client"] else 1))},
+             msg="renegotiation detection must recognise hello_request on clients and client_hello on servers "
+                 "(answered with a no_renegotiation warning); any other unexpected handshake record aborts")])
     # middlebox tolerance cleared unconditionally before completion in both TLS 1.3 flows
     for q in (TLSCONN + "_clientTLS13Handshake", TLSCONN + "_serverTLS13Handshake"):
         f = ctx.index.func(q)
